@@ -347,6 +347,17 @@ def save_misc_unit(ctx, src):
                       Rule(r'\bmemcpy\(', 'verif_memcpy(', count=1, regex=True),
                       UNION_RULE],
                loops={1: PNG_LOOP}, nloops=1, tail='*out_image_data = image_data; *out_image_size = image_size;')
+    # PNG: the zlib call protocol of the IDAT chunk (zlib.h: the destination buffer handed to compress2 "must be at least the value returned by
+    # compressBound(sourceLen)"; the whole scan-line buffer is the source; the compressed bytes are what the IDAT chunk carries)
+    emit_range(u, src, CC, SAVE, r'uLongf idat_size = ', ('before', r'write_png_chunk\("[^"]*", nullptr, 0, writer\)'),
+               'void Image_save_png_idat(const Image* self, void* image_data, size_t image_size)',
+               rules=[Rule('auto idat_data = malloc_unique(', 'void* idat_data = C06_malloc_unique(', count=1),
+                      Rule('idat_data.get()', 'idat_data', count='+'), Rule('image_data.get()', 'image_data', count='+'),
+                      Rule(r'\bcompressBound\(', 'C06_compressBound(', count='+', regex=True),
+                      Rule(r'\bif \(int (\w+) = compress2\(([^;{]*)\)\) \{', r'int \1 = C06_compress2(\2); if (\1) {', count=1, regex=True),
+                      Rule(r'self->get_data_size\(\)', 'Image_get_data_size(self)', count=None, regex=True),
+                      Rule(r'\bwrite_png_chunk\(("IDAT"), ([^;]*), writer\);', r'C06_png_chunk_call(\1, \2);', count=1, regex=True)],
+               ret_zero='')
     u.block(src, CC, SAVE, r'case Format::COLOR_PPM:', new_header='void Image_save_ppm(const Image* self)',
             rules=[Rule(r'\bsnprintf\(', 'C06_snprintf(', count=2, regex=True),
                    Rule(r'\bstrlen\(', 'C06_strlen(', count=1, regex=True),
@@ -369,6 +380,12 @@ def save_misc_groups(ctx, dim):
                         clause_note='contracts/C06_save.h: both memcpy ranges inside their allocations; h lines of 1+w*ps bytes; filter byte 0; '
                                     'byte (x,c) of row y at y*(1+w*ps)+1+x*ps+c',
                         replay=Replay(mode='png_save', extra=['in_alpha=0x%X' % alpha], **RP)))
+    gs.append(Group(name='Image.save.png.idat', harness='harness/C06/save_misc.c', entry='h_png_idat', function='Image::save_helper (PNG: compressBound / compress2 / IDAT chunk)',
+                    enforce='Image_save_png_idat', replace=['C06_compressBound', 'C06_compress2', 'C06_png_chunk_call'], defines=['C06_DIM=%d' % dim, 'C06_ALPHA=0'], kind='loop-free', timeout=300,
+                    object_bits=12, min_post=3,
+                    clause_note='contracts/C06_save.h: compress2 gets the whole scan-line buffer as its source and a destination of at least compressBound(source length) bytes '
+                                '(zlib.h); the IDAT chunk carries exactly the bytes compress2 produced; runtime_error iff compress2 fails',
+                    replay=Replay(mode='png_save', extra=['in_alpha=0x0'], **RP)))
     for cw in (8, 16, 32, 64):
         for alpha in (0, 1):
             d = ['C06_DIM=%d' % dim, 'C06_ALPHA=%d' % alpha, 'C06_CW=%d' % cw]
@@ -516,7 +533,8 @@ DROPS = ('blocks / statement ranges of Image::load and Image::save_helper become
          'expressions are discarded with the throw lowering')
 NOT_DECIDED = [
     'dimensions above the bound (the property quantifies over 1..64; decided here: 1..8 quick, 1..16 thorough, less for wide-channel gray files)',
-    'PNG validity beyond the scan-line buffer and the chunk framing / CRC chain of write_png_chunk: zlib stream (compress2), the CRC polynomial (crc32 is '
+    'PNG validity beyond the scan-line buffer, the zlib call protocol of the IDAT chunk (group Image.save.png.idat: source = whole scan-line buffer, destination >= '
+    'compressBound(source length), chunk = the bytes compress2 produced) and the chunk framing / CRC chain of write_png_chunk: the zlib stream itself (compress2), the CRC polynomial (crc32 is '
     'abstract), IHDR/gAMA field values and the chunk order at the four call sites -- external library calls and C++ aggregate code outside this technique '
     '(the native replay driver decodes a PNG with zlib, as a test only)',
     'PPM / PAM header text: snprintf output, fscanf / fgets / stoull parsing, whitespace handling, max-value -> channel-width mapping',
